@@ -7,8 +7,10 @@ import io
 
 from hypothesis import strategies as st
 
+from hypothesis.stateful import initialize, rule
+
 from vt import engine
-from vt.engine import HypPart
+from vt.engine import HistoryMachine, HypPart, MachinePart
 from vt.gen import dlis as G
 
 PID = 'C01'
@@ -27,7 +29,8 @@ SHARDS = {'quick': 4, 'thorough': 16}
 REQUIRED_CLASSES = {'record-spans>=2-visible-records': 1, 'segment-with-padding': 1, 'segment-with-checksum': 1,
                     'segment-with-trailing-length': 1, 'zero-length-payload': 1, 'encrypted-record': 1, 'encrypted-segment-with-padding': 1, 'visible-record-of-20-bytes': 1,
                     'visible-record-of-16384-bytes': 1,
-                    'sul-number-with-0-digit': 1, 'several-records-in-one-visible-record': 1}
+                    'sul-number-with-0-digit': 1, 'several-records-in-one-visible-record': 1,
+                    'reread:second-pass': 1, 'reread:pass-after-other-operation': 1}
 
 
 def has_zero_digit(n):
@@ -121,5 +124,109 @@ def check(case, cc):
             cc.dev('record-positions', 'positions', 'record %d: reported vr/lrsh %r, model %r' % (k, g[4:], e[4:]))
 
 
+# -------------------------------------------------------------------------------------------------
+# Histories on one FileRead object: a sequential pass must give the written records whatever was done before
+# -------------------------------------------------------------------------------------------------
+class RereadState:
+    def __init__(self, init, cc):
+        from TotalDepth.RP66V1.core import File
+        self.File = File
+        data, model = G.build(init)
+        self.case, self.model = init, model
+        classify(cc, init, model)
+        cc.sample(summary(init, model))
+        self.exp = [(r['eflr'], r['type'], G.expected_payload(r, l), m['vr_pos'], m['lrsh_pos'])
+                    for r, l, m in zip(init['records'], init['layouts'], model['records'])]
+        self.fr = File.FileRead(io.BytesIO(data))
+        self.fr._enter()
+        self.passes = 0
+        self.others = 0
+
+    def close(self):
+        try:
+            self.fr._exit()
+        except Exception:  # noqa
+            pass
+
+
+def reread_start(init, cc):
+    return RereadState(init, cc)
+
+
+def reread_step(s, op, cc):
+    kind = op['op']
+    n = len(s.exp)
+    if kind == 'pass':
+        limit = n if op.get('all', True) else 1 + op['take'] % n
+        got = []
+        for fld in s.fr.iter_logical_records():
+            got.append((bool(fld.lr_is_eflr), fld.lr_type, bytes(fld.logical_data.bytes), fld.position.vr_position, fld.position.lrsh_position))
+            if len(got) >= limit:
+                break
+        if got != s.exp[:limit]:
+            k = next((i for i, (g, e) in enumerate(zip(got, s.exp)) if g != e), min(len(got), limit))
+            sig = 'reread-differs' if (s.passes or s.others) else 'first-read-differs'
+            cc.dev('records==written', sig, 'pass %d (after %d other operations): %d records read, first difference at record %d of %d' % (
+                s.passes + 1, s.others, len(got), k, limit))
+        s.passes += 1
+        cc.cls('reread:second-pass', s.passes >= 2)
+        cc.cls('reread:pass-after-other-operation', s.others > 0)
+        cc.cls('reread:partial-pass', limit < n)
+        if s.passes >= 2 and s.others > 0 and model_multi_vr(s.model):
+            cc.nt(True)
+        return
+    s.others += 1
+    if kind == 'visible_records':
+        vrs = [(v.position, v.length) for v in s.fr.iter_visible_records()]
+        if len(vrs) != s.model['vr_count']:
+            cc.dev('visible-records', 'visible-record-count', '%d visible records listed, %d written' % (len(vrs), s.model['vr_count']))
+    elif kind == 'validate':
+        s.fr.validate_positions()
+    elif kind == 'positions':
+        pos = [(p.position.vr_position, p.position.lrsh_position) for p in s.fr.iter_logical_record_positions()]
+        if pos != [(e[3], e[4]) for e in s.exp]:
+            cc.dev('record-positions', 'positions', 'iter_logical_record_positions differs from the model')
+    elif kind == 'fetch':
+        k = op['k'] % n
+        m = s.model['records'][k]
+        class P:  # noqa
+            vr_position, lrsh_position = m['vr_pos'], m['lrsh_pos']
+        fld = s.fr.get_file_logical_data(P)
+        if bytes(fld.logical_data.bytes) != s.exp[k][2]:
+            cc.dev('records==written', 'fetch-differs', 'fetch of record %d differs' % k)
+    else:
+        raise engine.HarnessError('unknown op %r' % (op,))
+
+
+def model_multi_vr(model):
+    return model['vr_count'] >= 2
+
+
+class RereadMachine(HistoryMachine):
+    START = staticmethod(reread_start)
+    STEP = staticmethod(reread_step)
+
+    @initialize(init=G.physical_files(min_records=2, max_records=6, max_payload=600))
+    def init(self, init):
+        self.begin(init)
+
+    @rule()
+    def full_pass(self):
+        self.op({'op': 'pass', 'all': True})
+
+    @rule(take=st.integers(0, 5))
+    def partial_pass(self, take):
+        self.op({'op': 'pass', 'all': False, 'take': take})
+
+    @rule(kind=st.sampled_from(['visible_records', 'validate', 'positions']))
+    def other(self, kind):
+        self.op({'op': kind})
+
+    @rule(k=st.integers(0, 5))
+    def fetch(self, k):
+        self.op({'op': 'fetch', 'k': k})
+
+
 def parts(tier):
-    return [HypPart('sequential-read', G.physical_files(), check, 1600, 40000)]
+    return [HypPart('sequential-read', G.physical_files(), check, 1600, 40000),
+            MachinePart('reread-history', RereadMachine, engine.replay_machine_case(reread_start, reread_step), 500, 10000, steps=8)]
